@@ -34,6 +34,9 @@ pub struct Case {
     /// index into STATUSES (redirect following stays on: none of these is followed)
     #[serde(default)]
     pub status: u8,
+    /// when > 0: an earlier chunked response on the same thread is read for this many bytes and dropped before the case runs
+    #[serde(default)]
+    pub prelude: u8,
 }
 
 pub const STATUSES: &[u16] = &[200, 200, 200, 200, 201, 206, 404, 500, 300, 305, 226, 599];
@@ -198,9 +201,9 @@ segmentation x caller read plan), run through send() on a scripted transport; no
             gen::read_plan(),
             proptest::collection::vec(gen::read_size(), 0..4),
             0u8..12,
-            (prop_oneof![5 => Just(vec![]), 1 => proptest::collection::vec((any::<u16>(), 0u8..3), 1..3)], 0u8..STATUSES.len() as u8),
+            (prop_oneof![5 => Just(vec![]), 1 => proptest::collection::vec((any::<u16>(), 0u8..3), 1..3)], 0u8..STATUSES.len() as u8, prop_oneof![4 => Just(0u8), 1 => 1u8..=39]),
         )
-            .prop_map(|(payload, framing, hdr_style, trailing, seg, reads, after_eof, neutral_headers, (hiccups, status))| Case {
+            .prop_map(|(payload, framing, hdr_style, trailing, seg, reads, after_eof, neutral_headers, (hiccups, status, prelude))| Case {
                 payload,
                 framing,
                 hdr_style,
@@ -211,12 +214,17 @@ segmentation x caller read plan), run through send() on a scripted transport; no
                 neutral_headers,
                 hiccups,
                 status,
+                prelude,
             })
             .boxed()
     }
 
     fn check(case: &Case, ctx: &mut Ctx) -> Outcome {
         let payload = case.payload.bytes();
+        if case.prelude > 0 {
+            crate::client::prelude_partial_read(case.prelude as usize);
+            ctx.label("after-a-partially-read-response-on-the-same-thread");
+        }
         let status = STATUSES[case.status as usize % STATUSES.len()];
         let mut built = build_response(status, &neutral_headers(case.neutral_headers), &case.framing, case.hdr_style, &payload);
         let framed = !matches!(case.framing, Framing::Close);
